@@ -94,6 +94,6 @@ end Fixed
 NewAppEncryption / NewCryptoPolicy (vetted against docs and cmd flags: e.g. the DynamoDB region
 suffix follows `EnableRegionSuffix`, the session cache follows `EnableSessionCaching`).  A flag wired
 to the wrong option changes key ids or cache behaviour without any handler test noticing. -/
-def optionWiring : List String := ["NewMetastore: switch opts.Metastore", "NewMetastore: newMysql(opts.ConnectionString)", "NewMetastore: if len(opts.ReplicaReadConsistency)>0", "NewMetastore: len(opts.ReplicaReadConsistency)", "NewMetastore: setRdbmsReplicaReadConsistencyValue(opts.ReplicaReadConsistency)", "NewMetastore: if len(opts.DynamoDBEndpoint)>0", "NewMetastore: len(opts.DynamoDBEndpoint)", "NewMetastore: aws.String(opts.DynamoDBEndpoint)", "NewMetastore: if len(opts.DynamoDBRegion)>0", "NewMetastore: len(opts.DynamoDBRegion)", "NewMetastore: aws.String(opts.DynamoDBRegion)", "NewMetastore: persistence.WithDynamoDBRegionSuffix(opts.EnableRegionSuffix)", "NewMetastore: persistence.WithTableName(opts.DynamoDBTableName)", "NewKMS: if opts.KMS==\"static\"", "NewKMS: kms.NewAWS(crypto,opts.PreferredRegion,opts.RegionMap)", "NewAppEncryption: appencryption.NewSessionFactory(&appencryption.Config{…},NewMetastore(options),NewKMS(options,crypto),crypto,appencryption.WithSecretFactory(new(memguard.SecretFactory)),appencryption.WithMetrics(false))", "NewCryptoPolicy: policyOpts=?{…}", "NewCryptoPolicy: appencryption.WithExpireAfterDuration(options.ExpireAfter)", "NewCryptoPolicy: appencryption.WithRevokeCheckInterval(options.CheckInterval)", "NewCryptoPolicy: if options.EnableSessionCaching", "NewCryptoPolicy: appencryption.WithSessionCacheMaxSize(options.SessionCacheMaxSize)", "NewCryptoPolicy: appencryption.WithSessionCacheDuration(options.SessionCacheDuration)"]
+def optionWiring : List String := ["NewMetastore: switch opts.Metastore", "NewMetastore: newMysql(opts.ConnectionString)", "NewMetastore: if len(opts.ReplicaReadConsistency)>0", "NewMetastore: len(opts.ReplicaReadConsistency)", "NewMetastore: setRdbmsReplicaReadConsistencyValue(opts.ReplicaReadConsistency)", "NewMetastore: if len(opts.DynamoDBEndpoint)>0", "NewMetastore: len(opts.DynamoDBEndpoint)", "NewMetastore: aws.String(opts.DynamoDBEndpoint)", "NewMetastore: if len(opts.DynamoDBRegion)>0", "NewMetastore: len(opts.DynamoDBRegion)", "NewMetastore: aws.String(opts.DynamoDBRegion)", "NewMetastore: persistence.WithDynamoDBRegionSuffix(opts.EnableRegionSuffix)", "NewMetastore: persistence.WithTableName(opts.DynamoDBTableName)", "NewKMS: if opts.KMS==\"static\"", "NewKMS: kms.NewAWS(crypto,opts.PreferredRegion,opts.RegionMap)", "NewAppEncryption: appencryption.NewSessionFactory(&appencryption.Config{…},NewMetastore(options),NewKMS(options,crypto),crypto,appencryption.WithSecretFactory(new(memguard.SecretFactory)),appencryption.WithMetrics(false))", "NewAppEncryption: field Service=options.ServiceName", "NewAppEncryption: field Product=options.ProductID", "NewCryptoPolicy: policyOpts=?{…}", "NewCryptoPolicy: appencryption.WithExpireAfterDuration(options.ExpireAfter)", "NewCryptoPolicy: appencryption.WithRevokeCheckInterval(options.CheckInterval)", "NewCryptoPolicy: if options.EnableSessionCaching", "NewCryptoPolicy: appencryption.WithSessionCacheMaxSize(options.SessionCacheMaxSize)", "NewCryptoPolicy: appencryption.WithSessionCacheDuration(options.SessionCacheDuration)"]
 
 end AsherahVerif.Expected.Server
